@@ -298,6 +298,9 @@ EXPLANATION = (
     "refute delivered ≠ integral (per-time: value·seconds; absolute: interval-relative weights; average: divided by "
     "the elapsed seconds); additionally total over a partition = one pull over the whole period (twin adapter), "
     "average within [min,max] of contributing values, delivered units = input units · s reduced (pint, concrete). "
+    "The ':missing' families publish hlib.Dep elements (sets of publication indices propagated by the adapter's real "
+    "arithmetic, also through zero weights like 0*nan / 0*masked) and require the delivered set to be exactly the set of "
+    "publications the integral over [previous pull, pull] depends on (located from the definition with the same forks). "
     "Obligations z3 answers 'unknown' within the time limit are counted and excluded from the claim."
 )
 ASSUMPTIONS = ["pull times strictly increase (p0 < p1)", "floats as reals; timedelta.total_seconds() exact"]
